@@ -11,7 +11,7 @@ import (
 
 // Property C14: derived reactive values converge to their defining function of the current inputs.
 
-//verif:h prop=C14 p.writes=3/4 cover=derived1,derived2,inherit,unsubscribed runs=5000000 timeout=250/900
+//verif:h prop=C14 p.writes=3/4 cover=derived1,derived2,inherit,unsubscribed runs=5000000 timeout=900/900
 func H_C14_variable_hist() {
 	a, b := NewVariable[uint8](), NewVariable[uint8]()
 	kind := verifrt.Choose("kind", 3)
@@ -92,7 +92,7 @@ func c14Universe() [3]uint8 {
 // H_C14_derivedset_hist: a DerivedSet equals the union of its current sources, SubtractReactive the source
 // minus the others, through histories of Add/Delete/Replace on the sources and unsubscribing a source.
 //
-//verif:h prop=C14 p.ops=3/4 cover=union,subtract,replace,readd,unsubscribe runs=5000000 timeout=250/900
+//verif:h prop=C14 p.ops=3/4 cover=union,subtract,replace,readd,unsubscribe runs=5000000 timeout=900/900
 func H_C14_derivedset_hist() {
 	u := c14Universe()
 	s1, s2 := NewSet[uint8](), NewSet[uint8]()
@@ -138,7 +138,7 @@ func H_C14_derivedset_hist() {
 
 // H_C14_counter_hist: a Counter equals the number of monitored inputs that currently satisfy its condition.
 //
-//verif:h prop=C14 p.writes=3/4 cover=count runs=5000000 timeout=250/900
+//verif:h prop=C14 p.writes=3/4 cover=count runs=5000000 timeout=900/900
 func H_C14_counter_hist() {
 	in := [2]Variable[uint8]{NewVariable[uint8](), NewVariable[uint8]()}
 	// two conditions: one that is false for the zero value and one that is true for it
@@ -180,7 +180,7 @@ func H_C14_counter_hist() {
 
 // H_C14_sortedset_hist: a SortedSet lists its elements by current weight, Heaviest/Lightest at the ends.
 //
-//verif:h prop=C14 p.ops=3/4 cover=add,delete,reweigh,reweigh-removed runs=5000000 timeout=250/900
+//verif:h prop=C14 p.ops=3/4 cover=add,delete,reweigh,reweigh-removed runs=5000000 timeout=900/900
 func H_C14_sortedset_hist() {
 	weights := [3]Variable[uint8]{NewVariable[uint8](), NewVariable[uint8](), NewVariable[uint8]()}
 	ss := NewSortedSet[int, uint8](func(e int) Variable[uint8] { return weights[e-1] })
@@ -235,7 +235,7 @@ func H_C14_sortedset_hist() {
 
 // H_C14_waitgroup_hist: a WaitGroup triggers when and only when its last pending element is marked done.
 //
-//verif:h prop=C14 p.ops=3/4 cover=triggered,pending runs=5000000 timeout=250/900
+//verif:h prop=C14 p.ops=3/4 cover=triggered,pending runs=5000000 timeout=900/900
 func H_C14_waitgroup_hist() {
 	u := c14Universe()
 	wg := NewWaitGroup[uint8](u[0])
@@ -280,7 +280,7 @@ func H_C14_waitgroup_hist() {
 // H_C14_waitgroup_conc: Add of two elements racing with Done of the first: the group triggers only when nothing is
 // pending any more.
 //
-//verif:h prop=C14 preempt=2/3 cover=done runs=5000000 timeout=250/900
+//verif:h prop=C14 preempt=2/3 cover=done runs=5000000 timeout=900/900
 func H_C14_waitgroup_conc() {
 	wg := NewWaitGroup[uint8]()
 	var w sync.WaitGroup
@@ -298,7 +298,7 @@ func H_C14_waitgroup_conc() {
 
 // H_C14_eviction_hist: an EvictionState has triggered exactly the events of slots up to the last evicted slot.
 //
-//verif:h prop=C14 p.ops=3/4 cover=evicted,future runs=5000000 timeout=250/900
+//verif:h prop=C14 p.ops=3/4 cover=evicted,future runs=5000000 timeout=900/900
 func H_C14_eviction_hist() {
 	es := NewEvictionState[uint8]()
 	events := map[uint8]Event{}
@@ -332,7 +332,7 @@ func H_C14_eviction_hist() {
 // H_C14_conc: writers on different inputs / structural versus value changes; at quiescence the derived values
 // equal their defining functions; no combination deadlocks (all goroutines are must-finish).
 //
-//verif:h prop=C14 preempt=1/2 cover=derived,union,sorted,sorted-add runs=30000000 timeout=280/900 steps=600000
+//verif:h prop=C14 preempt=1/2 cover=derived,union,sorted,sorted-add runs=30000000 timeout=900/900 steps=600000
 func H_C14_conc() {
 	var wg sync.WaitGroup
 	run := func(f func()) {
